@@ -131,7 +131,22 @@ func (x *Exec) run(st *State) {
 				return
 			}
 		case ssa.Value:
-			fr.vals[v] = x.evalValue(st, fr, v)
+			sv := x.evalValue(st, fr, v)
+			if len(st.rewrites) > 0 {
+				var nl []*Term
+				for i, l := range sv.l {
+					if c, ok := st.rewrites[l.id]; ok {
+						if nl == nil {
+							nl = append([]*Term{}, sv.l...)
+						}
+						nl[i] = c
+					}
+				}
+				if nl != nil {
+					sv.l = nl
+				}
+			}
+			fr.vals[v] = sv
 		default:
 			panic(abortErr{fmt.Sprintf("unsupported instruction %T in %s", ins, fr.fn)})
 		}
